@@ -3,6 +3,7 @@ MANIFEST.json from it."""
 from . import c12 as _c12
 from . import c01_kani as _c01k
 from . import c06_roundtrip as _c06r
+from . import c11_decoys as _c11d
 
 TECH = ("contract-based deductive verification: Verus discharges contracts woven into the real functions extracted from "
         "/repo on every run (units: %s); vacuity canary copies; failures mapped to the property by contract labels")
@@ -52,8 +53,12 @@ PROPS = {
     "C08": _p(["generate", "main"], COMMON_TRUST + " Temporary-file clause: AsyncTempFile::new and the body of Drop::drop are under contract (fresh temp name; drop removes self.path); "
               "that every AsyncTempFile value is dropped is Rust's ownership semantics (not visible to the weaver); a failed unlink is ignored by the code.",
               "generate_code: Ok implies every readable file completely edited; failure flag reduced and consumed; main maps Err to non-zero; temp file created fresh and removed on drop"),
-    "C11": _p(["find"], COMMON_TRUST + " CLAIMED FOR THE CONFIGURED-MACRO CLAUSE ONLY; comments / string literals are the grammar's COMMENT and string rules (not decided).",
-              "macro_of_interest == exact name or module::name; find emits nothing for other names (result == tree_entries)"),
+    "C11": _p(["find"], COMMON_TRUST + " The configured-macro clause is PROVED. The comment / string-literal clauses are the grammar's COMMENT and string rules as executed by "
+              "pest (outside both verifiers): covered by a BOUNDED native run of decoys (labelled bounded, not counted as proved).",
+              "macro_of_interest == exact name or module::name; find emits nothing for other names (result == tree_entries). Bounded stand-in for the grammar clauses: "
+              "58 (thorough 61) decoys x 2 styles (commented-out statements incl. last line without newline, LF/CRLF, unconfigured look-alike names, no literal message, "
+              "macro-like text in string literals) through the release binary: not reported by --check, not modified by an edit",
+              extra=[("decoys_bounded", _c11d.run)]),
     "C12": _p(["entry", "find", "directive"], "regex crate and str::parse::<u32> are exercised natively on the enumerated set only (BOUNDED, not proved). " + COMMON_TRUST,
               "bounded-exhaustive conformance of the real extraction (through the real parser) to an oracle that Verus proved equal to the token rule and "
               "compiled; proved: the inserted-token clause (unit entry: C12.inserted; lemma_inserted_token_reads_back) and, relative to two stated axioms on the "
